@@ -249,5 +249,5 @@ Definition ref_chk_spec (c : ref_case) : bool :=
                      (Spec.outcome_of m (Spec.lookup U (relative_to U path elem) nm m))
   end.
 
-Definition ref_chk_wf (c : ref_case) : bool :=
-  match c with RC U path elem nm types obs => wf_universe U && scope_ok U path elem end.
+Definition ref_chk_scope (c : ref_case) : bool :=
+  match c with RC U path elem nm types obs => scope_ok U path elem end.
